@@ -29,6 +29,7 @@ type Obligation struct {
 	PC     []string `json:"-"`      // assumptions
 	Neg    string   `json:"-"`      // SMT goal (to be negated)
 	Expect string   `json:"expect"` // "unsat" (proof) or "sat" (vacuity / reachability canary)
+	Using  []string `json:"using,omitempty"` // proof hint: tags of the quantified assumptions to try first
 	fx     *FuncExec
 }
 
@@ -49,6 +50,8 @@ type loopCtx struct {
 }
 
 type FuncExec struct {
+	initCopy bool              // copying into the sub-objects of an object being created by a composite literal
+	tagOf    map[string]string // provenance of assumptions (for "using" hints)
 	tailStmt ast.Stmt // tail-split: the statement whose branch states are handed over un-merged
 	tailOuts []*State
 	ctx      *Ctx
@@ -137,6 +140,18 @@ func (fx *FuncExec) unsupported(pos token.Pos, format string, args ...interface{
 // H reads the current version of a heap component and records its use.
 func (fx *FuncExec) H(st *State, comp string) string {
 	fx.used[comp] = true
+	if fx.isStructValuedComp(comp) {
+		// which sub-object belongs to which object never changes: one constant array
+		// for the whole function (sub-objects of objects created later are the
+		// not-yet-allocated references it already maps them to)
+		v := fx.h0(comp)
+		if _, ok := st.vars[comp]; !ok {
+			st.vars[comp] = v
+			fx.recordGoodHeap(st, []string{comp})
+		}
+		st.vars[comp] = v
+		return v
+	}
 	v, ok := st.vars[comp]
 	if !ok {
 		if _, known := fx.reg.compSort[comp]; !known {
@@ -150,6 +165,9 @@ func (fx *FuncExec) H(st *State, comp string) string {
 }
 
 func (fx *FuncExec) setH(st *State, comp, val string) {
+	if fx.isStructValuedComp(comp) {
+		panic(subsetError{"internal: write to the sub-object map " + comp})
+	}
 	fx.used[comp] = true
 	fx.writes[comp] = true
 	c := fx.fresh(comp, fx.reg.compSort[comp])
@@ -167,6 +185,9 @@ func (fx *FuncExec) setH(st *State, comp, val string) {
 func (fx *FuncExec) havocHeap(st *State, comps []string) {
 	g := st.guard()
 	for _, c := range comps {
+		if fx.isStructValuedComp(c) {
+			continue
+		}
 		n := fx.fresh(c, fx.reg.compSort[c])
 		if g != "true" {
 			n2 := fx.fresh(c, fx.reg.compSort[c])
@@ -257,23 +278,44 @@ func (fx *FuncExec) alloc(st *State, sort, hint string) string {
 // struct-valued fields).
 func (fx *FuncExec) allocStruct(st *State, si *StructInfo, skipImm ...map[string]bool) string {
 	r := fx.alloc(st, si.Sort, si.Name)
+	fx.initStructAt(st, si, r, r, skipImm...)
+	return r
+}
+
+// allocStructAt allocates the struct object named by the term r (the
+// sub-object of an object being created): r is assumed unallocated so far.
+func (fx *FuncExec) allocStructAt(st *State, si *StructInfo, r, key string, skipImm ...map[string]bool) {
+	al := si.Alloc
+	st.assume(and(not(sel(fx.H(st, al), r)), not(eq(r, "null_"+si.Sort))))
+	fx.setH(st, al, store(st.vars[al], r, "true"))
+	fx.initStructAt(st, si, r, key, skipImm...)
+}
+
+func (fx *FuncExec) initStructAt(st *State, si *StructInfo, r, key string, skipImm ...map[string]bool) {
 	for _, f := range si.Fields {
 		ft := si.FieldT[f]
 		fs := fx.reg.SortOf(ft)
 		zero := fx.reg.Zero(fs)
 		if fx.reg.imm[si.Comp[f]] {
-			if len(skipImm) == 0 || !skipImm[0][f] {
-				st.assume(eq("(imm_"+si.Comp[f]+" "+r+")", zero))
+			if len(skipImm) == 0 || !(skipImm[0][f] || skipImm[0]["*"]) {
+				fx.immFact(key, eq("(imm_"+si.Comp[f]+" "+r+")", zero))
 			}
 			continue
 		}
-		if sub := fx.structValInfo(ft); sub != nil {
-			zero = fx.allocStruct(st, sub)
-		}
 		comp := si.Comp[f]
+		if sub := fx.structValInfo(ft); sub != nil {
+			subr := sel(fx.H(st, comp), r)
+			if len(skipImm) > 0 && (skipImm[0][f] || skipImm[0]["*"]) {
+				// the sub-object is initialised from the literal: its immutable fields
+				// get their values there, not the zero value
+				fx.allocStructAt(st, sub, subr, key, map[string]bool{"*": true})
+			} else {
+				fx.allocStructAt(st, sub, subr, key)
+			}
+			continue
+		}
 		fx.setHq(st, comp, store(fx.H(st, comp), r, zero))
 	}
-	return r
 }
 
 // setHq is setH for writes into freshly allocated objects: not a frame-relevant write.
@@ -308,19 +350,28 @@ func (fx *FuncExec) structValInfo(t types.Type) *StructInfo {
 
 func (fx *FuncExec) copyStruct(st *State, src string, si *StructInfo, quiet bool) string {
 	r := fx.alloc(st, si.Sort, si.Name)
+	fx.copyFieldsFresh(st, r, r, src, si)
+	return r
+}
+
+// copyFieldsFresh initialises the freshly allocated object r as a copy of src.
+func (fx *FuncExec) copyFieldsFresh(st *State, r, key, src string, si *StructInfo) {
 	for _, f := range si.Fields {
 		comp := si.Comp[f]
 		if fx.reg.imm[comp] {
-			st.assume(eq("(imm_"+comp+" "+r+")", "(imm_"+comp+" "+src+")"))
+			fx.immFact(key, eq("(imm_"+comp+" "+r+")", "(imm_"+comp+" "+src+")"))
 			continue
 		}
-		v := sel(fx.H(st, comp), src)
 		if sub := fx.structValInfo(si.FieldT[f]); sub != nil {
-			v = fx.copyStruct(st, v, sub, true)
+			subr := sel(fx.H(st, comp), r)
+			al := sub.Alloc
+			st.assume(and(not(sel(fx.H(st, al), subr)), not(eq(subr, "null_"+sub.Sort))))
+			fx.setH(st, al, store(st.vars[al], subr, "true"))
+			fx.copyFieldsFresh(st, subr, key, sel(fx.H(st, comp), src), sub)
+			continue
 		}
-		fx.setHq(st, comp, store(fx.H(st, comp), r, v))
+		fx.setHq(st, comp, store(fx.H(st, comp), r, sel(fx.H(st, comp), src)))
 	}
-	return r
 }
 
 // copyInto copies all fields of struct object src into existing object dst.
@@ -328,6 +379,11 @@ func (fx *FuncExec) copyInto(st *State, dst, src string, si *StructInfo, quiet b
 	for _, f := range si.Fields {
 		comp := si.Comp[f]
 		if fx.reg.imm[comp] {
+			if quiet && fx.initCopy {
+				// initialisation of a sub-object of a freshly created object
+				st.assume(eq("(imm_"+comp+" "+dst+")", "(imm_"+comp+" "+src+")"))
+				continue
+			}
 			fx.oblige(st, "immutable-write", f, eq("(imm_"+comp+" "+dst+")", "(imm_"+comp+" "+src+")"), "struct copy keeps immutable field "+f, fx.curPos)
 			continue
 		}
@@ -516,7 +572,7 @@ func (fx *FuncExec) specEnv(cur, old *State, pos token.Pos, where string) *SpecE
 	e := &SpecEnv{fx: fx, cur: cur, old: old, bound: map[string]Term{}, scope: scope, pos: pos, pkg: fx.pkg.Types, where: where}
 	for name, key := range fx.ghostVar {
 		if v, ok := cur.vars[key]; ok {
-			e.bound[name] = Term{S: v, Sort: fx.varSort[key]}
+			e.bound[name] = Term{S: v, Sort: fx.varSort[key], T: fx.varType[key]}
 		}
 	}
 	return e
@@ -554,11 +610,20 @@ func (o *Obligation) RenderOpts(depth int, hideDefs bool) string {
 		for sy := range gs {
 			visit(sy)
 		}
+		for _, u := range o.Using {
+			visit("gd_" + u)
+		}
 		hide = func(fn string) bool { return !reveal[fn] }
 	}
 	var body strings.Builder
 	seen := map[string]bool{}
-	for _, p := range sliceAssumptions(o.PC, o.Neg, o.Expect == "sat", depth) {
+	var kept []string
+	if depth == -2 {
+		kept = fx.sliceUsing(o.PC, o.Using)
+	} else {
+		kept = sliceAssumptions(o.PC, o.Neg, o.Expect == "sat", depth)
+	}
+	for _, p := range kept {
 		body.WriteString("(assert " + p + ")\n")
 	}
 	if o.Expect == "unsat" {
@@ -569,7 +634,7 @@ func (o *Obligation) RenderOpts(depth int, hideDefs bool) string {
 	syms := map[string]bool{}
 	symbolsOf(body.String(), syms)
 	var goalFam map[string]bool
-	if depth < 0 {
+	if depth == -1 {
 		goalFam = map[string]bool{}
 		gs := map[string]bool{}
 		symbolsOf(o.Neg, gs)
@@ -581,6 +646,21 @@ func (o *Obligation) RenderOpts(depth int, hideDefs bool) string {
 				}
 				if strings.HasPrefix(f, "MV_") {
 					goalFam["MD_"+strings.TrimPrefix(f, "MV_")] = true
+				}
+			}
+			if f := heapFamily(sy); f != "" {
+				// allocation sets of the sorts those components are indexed by / hold
+				if cs, ok := fx.reg.compSort[f]; ok {
+					ks, vs := arraySorts(cs)
+					if _, ok := fx.reg.allocOf[ks]; ok {
+						goalFam["AL_"+ks] = true
+					}
+					if _, ok := fx.reg.allocOf[vs]; ok {
+						goalFam["AL_"+vs] = true
+					}
+					if vs == "Slice" || strings.HasPrefix(f, "SE_") {
+						goalFam["AL_SRef"] = true
+					}
 				}
 			}
 			a := strings.TrimPrefix(strings.TrimPrefix(sy, "H0_"), "j_")
@@ -756,10 +836,18 @@ func (fx *FuncExec) frameWrite(st *State, comp, ref string, pos token.Pos) {
 
 // isStructValuedComp: is comp the heap component of a struct-valued (embedded by value) field?
 func (fx *FuncExec) isStructValuedComp(comp string) bool {
+	if !strings.HasPrefix(comp, "F_") {
+		return false
+	}
+	if v, ok := fx.reg.svComp[comp]; ok {
+		return v
+	}
 	for _, si := range fx.reg.structs {
 		for _, f := range si.Fields {
 			if si.Comp[f] == comp {
-				return fx.structValInfo(si.FieldT[f]) != nil
+				v := fx.structValInfo(si.FieldT[f]) != nil
+				fx.reg.svComp[comp] = v
+				return v
 			}
 		}
 	}
@@ -961,4 +1049,61 @@ func sliceByFamily(pc []string, goal string) []string {
 		}
 	}
 	return out
+}
+
+
+// assumeTagged adds an assumption and records where it comes from.
+func (fx *FuncExec) assumeTagged(st *State, f, tag string) {
+	n0 := len(st.pc)
+	st.assume(f)
+	if fx.tagOf == nil {
+		fx.tagOf = map[string]string{}
+	}
+	for _, p := range st.pc[n0:] {
+		fx.tagOf[p] = tag
+	}
+}
+
+func tagMatches(tag string, using []string) bool {
+	for _, u := range using {
+		if tag == u || strings.HasPrefix(tag, u+".") {
+			return true
+		}
+	}
+	return false
+}
+
+// sliceUsing keeps every unquantified assumption and the quantified ones whose
+// provenance tag is named by the hint.
+func (fx *FuncExec) sliceUsing(pc []string, using []string) []string {
+	var out []string
+	for _, p := range pc {
+		if !strings.Contains(p, "(forall ") && !strings.Contains(p, "(exists ") {
+			if len(p) < 6000 {
+				out = append(out, p)
+			}
+			continue
+		}
+		if t, ok := fx.tagOf[p]; ok && tagMatches(t, using) {
+			out = append(out, p)
+		}
+	}
+	return out
+}
+
+func shortCallee(key string) string {
+	if i := strings.LastIndex(key, "."); i >= 0 {
+		key = key[i+1:]
+	}
+	return strings.TrimLeft(key, "(*)")
+}
+
+
+// immFact records the value of an immutable field of the freshly created
+// object r. The fact is unconditional (r is a constant naming the object
+// created at this program point; on paths that do not create it, r denotes
+// nothing else), so it survives state merges instead of being buried in them;
+// it is emitted whenever the obligation mentions r.
+func (fx *FuncExec) immFact(r, fact string) {
+	fx.ghFacts = append(fx.ghFacts, ghFact{"", fact, r, false})
 }
